@@ -140,3 +140,47 @@ Definition run_hb (args : list Z) : list Z :=
   | i :: t :: now0 :: ops => hrun_per_op i t (mkH false 0 0 now0) (dec_hops (length ops) ops)
   | _ => [-1]
   end.
+
+(* -------------------------------------------------------------------- discovery *)
+From PV Require Import disc.Discovery.
+Open Scope Z_scope.
+
+Definition enc_bytes (l : list N) : list Z := nz (length l) :: map Nz l.
+
+Definition enc_dres (r : dres) : list Z :=
+  match r with
+  | DNoMatch => [0]
+  | DRequest => [1]
+  | DDecodeError => [2]
+  | DUnicodeError => [3]
+  | DResp4 h s i => [4] ++ enc_bytes h ++ enc_bytes s ++ enc_bytes i
+  | DResp5 h s i n => [5] ++ enc_bytes h ++ enc_bytes s ++ enc_bytes i ++ enc_bytes n
+  end.
+
+(* [6; gen; bytes...] -> decoded datagram *)
+Definition run_decode_dgram (args : list Z) : list Z :=
+  match args with
+  | g :: bs => enc_dres ((if g =? 4 then decode4 else decode5) (map zN bs))
+  | [] => [-1]
+  end.
+
+(* arrivals: [t; len; bytes...]* *)
+Fixpoint dec_arrivals (fuel : nat) (g : Z) (l : list Z) : list (Z * dres) :=
+  match fuel with
+  | O => []
+  | S f =>
+    match l with
+    | t :: n :: r =>
+      (t, (if g =? 4 then decode4 else decode5) (map zN (firstn (zn n) r))) :: dec_arrivals f g (skipn (zn n) r)
+    | _ => []
+    end
+  end.
+
+(* [7; gen; arrivals] -> [nreq; instants...; tend; nres; results...] *)
+Definition run_search (args : list Z) : list Z :=
+  match args with
+  | g :: r =>
+    let '(reqs, res, tend) := search (dec_arrivals (length r) g r) in
+    [nz (length reqs)] ++ reqs ++ [tend; nz (length res)] ++ concat (map enc_dres res)
+  | [] => [-1]
+  end.
